@@ -44,15 +44,24 @@ PROPS = {
                       'Display / derived Clone / Drop of the returned value (format machinery and derive output are outside both tools)',
                       'that every value produced by the parser satisfies the encoder precondition size_ok is not yet threaded '
                       'through the parser state (strings are at most 3*65535 bytes by construction)'],
+        'bounded': ['c02'],
         'design_ref': '§4 C02',
     },
     'C03': {
-        'title': 'encoder output is well-formed RFC 8010 (value and header level)',
-        'verus': _VALENC + [r'^IppHeader::to_bytes$'] + _SPEC_TERM[:1],
+        'title': 'encoder output is well-formed RFC 8010 and means what was encoded',
+        'verus': _VALENC + [r'^IppHeader::to_bytes$', r'^attribute::IppAttribute::to_bytes$', r'^attribute::IppAttributes::to_bytes$',
+                            r'^request::IppRequestResponse::to_bytes$',
+                            r'^verif_lemmas::(lemma_op_group_done|lemma_iter_keys|lemma_keys_enc_prefix|lemma_others_enc_prefix)$'] + _SPEC_TERM[:1],
         'kani': ['tables::table_value_tag', 'tables::table_delimiter_tag'],
         'assumptions': [_A_BYTES, _A_TERM, _A_W8,
-                        'A-btree-order: BTreeMap<String,_> iteration order is a function of the key set (specs/verif_ext.rs)'],
-        'uncovered': [],
+                        'A-btree-order: BTreeMap<String,_> iteration order is a function of the key set (specs/verif_ext.rs)',
+                        'A-groups: which non-operation groups are emitted and in which order (iter().filter()) is only partly specified by '
+                        'vstd: proved = every emitted group is a non-operation group of the message, with its own delimiter and each of its '
+                        'attributes exactly once; assumed = all of them, in message order',
+                        'groups_of / is_header_attr contracts assumed (see C09); precondition groups_wf'],
+        'uncovered': ['the statement "read back by an independent decoder the content equals the message" is the composition of this '
+                      'encoder specification with C04\'s machine; the composing lemma (C01) is not proved yet'],
+        'bounded': ['c03', 'container'],
         'design_ref': '§4 C03',
     },
     'C04': {
@@ -72,6 +81,7 @@ PROPS = {
                         '(as opposed to its map key) is not part of the abstraction'],
         'uncovered': ['messages that are not well-formed (m_run = None): only rejection of out-of-range tag bytes, panic-freedom and exact '
                       'consumption are proved for them (C02, C06), not what content is returned'],
+        'bounded': ['c04'],
         'design_ref': '§4 C04',
     },
     'C05': {
@@ -83,6 +93,7 @@ PROPS = {
                         'no interleaving is explored: the schedule quantifier is carried by the assumed contract of the '
                         'read_exact future plus Rust\'s guarantee that locals survive suspension'],
         'uncovered': ['the I/O error kind is not tracked through `?` by Verus (see C07 for the Kani part)'],
+        'bounded': ['c05'],
         'design_ref': '§4 C05',
     },
     'C06': {
@@ -94,6 +105,7 @@ PROPS = {
                         'IppReader::into_payload / IppPayload (multi-trait dyn) are outside Verus: that the payload delivers the '
                         'inner reader unmodified is an assumed contract'],
         'uncovered': [],
+        'bounded': ['c06'],
         'design_ref': '§4 C06',
     },
     'C07': {
@@ -104,7 +116,29 @@ PROPS = {
         'assumptions': [_A_STREAM, _A_LOG, _A_W8, _A_U16],
         'uncovered': ['that the propagated error is the very error read_exact returned (Verus loses the converted value through `?`); '
                       'Kani proves kind preservation of the From conversion only'],
+        'bounded': ['c07'],
         'design_ref': '§4 C07',
+    },
+    'C09': {
+        'title': 'mandatory operation attributes are emitted in RFC 8011 order',
+        'verus': [r'^attribute::IppAttributes::to_bytes$', r'^attribute::IppAttribute::to_bytes$', r'^attribute::lemma_header_attrs_ok$',
+                  r'^request::IppRequestResponse::(new|new_response|to_bytes)$',
+                  r'^verif_lemmas::(lemma_first_op|lemma_loop1_step|lemma_loop2_step|lemma_op_group_done|lemma_iter_keys|lemma_keys_enc_prefix)$'],
+        'kani': ['tables::table_delimiter_tag'],
+        'assumptions': ['IppAttributes::groups_of(tag) yields the groups of that kind in message order (its filter-based body is accepted by '
+                        'Verus but vstd specifies Filter only as "a sub-multiset satisfying the predicate"): assumed contract, see C19',
+                        'is_header_attr(name) <=> name is one of HEADER_ATTRS (closure pattern parameter outside Verus): assumed contract',
+                        'A-string-borrow: HashMap<String,_>::get(&str) finds the key with that content; vstd HashMap model incl. iter()',
+                        'W8: `for x in m.values()` is verified as `for (_, x) in m.iter()` (vstd specifies values() by length only)',
+                        _A_BYTES, _A_W8, _A_TERM,
+                        'precondition groups_wf: every attribute is filed under its own name and every value is within the 16-bit wire '
+                        'lengths (true of everything built by add / the constructors / the parser; not enforced by the public map accessors)',
+                        'the order is proved for EVERY iteration order of the hash maps (the postcondition quantifies the order existentially '
+                        'and proves rank-sortedness for whichever order occurred); no sampling of hash seeds'],
+        'uncovered': ['that the constructors/builders put printer-uri / job-id into the operation group is C10; here: whatever is in the first '
+                      'operation group is emitted in RFC order, once each'],
+        'bounded': ['c09', 'container'],
+        'design_ref': '§4 C09',
     },
     'C10': {
         'title': 'operation constructors produce exactly the described request',
@@ -122,6 +156,7 @@ PROPS = {
         'uncovered': ['GetPrinterAttributes::into_ipp_request: `map(IppValue::Keyword).collect()` is outside Verus (constructor as '
                       'function value) — body unverified, so requested-attributes is not covered',
                       'the builder layer (operation/builder.rs: `mut self` setters, AsRef<str>, `impl IppOperation` returns) is not under contract'],
+        'bounded': ['c10', 'container'],
         'design_ref': '§4 C10',
     },
     'C16': {
